@@ -9,7 +9,7 @@ sys.path.insert(0, HERE)
 from mutants import MUTANTS  # noqa
 
 
-def run(pids=None, standin=False, verbose=True):
+def run(pids=None, standin=True, verbose=True):
     out = []
     for m in MUTANTS:
         if pids and m['property'] not in pids:
